@@ -330,8 +330,15 @@ fn judge_must_fail(src: &str, ctx: &mut Ctx, tag: &str, sc: Option<&mut cli::Scr
     if let Some(sc) = sc {
         let f = sc.file("arity.fml");
         std::fs::write(&f, src).unwrap();
-        for (btag, bin) in [("debug", cli::fml_debug()), ("release", cli::fml_release())].iter() {
-            let o = cli::run_fml(bin, &["run", f.to_str().unwrap()]).map_err(|e| Violation::new("harness-error", e.to_string(), json!({})))?;
+        let log = sc.file("arity.csv");
+        let rel = cli::fml_release();
+        // the third run has --heap-log switched on: a failing operation fails under every flag
+        for (btag, bin, with_log) in [("debug", cli::fml_debug(), false), ("release", rel.clone(), false), ("release with --heap-log", rel.clone(), true)].iter() {
+            let mut args = vec!["run", f.to_str().unwrap()];
+            if *with_log {
+                args.extend(["--heap-log", log.to_str().unwrap()]);
+            }
+            let o = cli::run_fml(bin, &args).map_err(|e| Violation::new("harness-error", e.to_string(), json!({})))?;
             if o.status.success() || matches!(o.status, cli::Status::Signal(_)) || !o.stdout.is_empty() {
                 return ctx.settle(
                     Violation::new("wrong-builtin-result", format!("`{}` [{} binary]: expected a failure without output, got {:?} stdout {:?}", src, btag, o.status, o.out_str()), json!({"must_fail": true, "source": src, "where": format!("{} binary", btag)}))
